@@ -83,6 +83,7 @@ class FakeFS:
         self.files = {}
         self.log = log
         self.exists_override = None
+        self.fail = None        # fault injection: "write" (opening a file for writing fails: disk full, quota, read-only), "replace"
 
     def exists(self, path):
         return path.key() in self.files
@@ -91,6 +92,8 @@ class FakeFS:
         if not isinstance(path, FakePath):
             raise OSError("unexpected real path " + str(path))
         self.log.append(("open", path.key(), mode))
+        if "w" in mode and self.fail == "write":
+            raise OSError(28, "No space left on device")
         if "w" in mode:
             self.files[path.key()] = TRUNCATED
         elif path.key() not in self.files:
@@ -99,6 +102,8 @@ class FakeFS:
 
     def replace(self, src, dst):
         self.log.append(("replace", src.key(), dst.key()))
+        if self.fail == "replace":
+            raise PermissionError(13, "Permission denied")
         self.files[dst.key()] = self.files.pop(src.key())
 
     def remove(self, p):
